@@ -1,51 +1,76 @@
-"""The body of the REAL ConnectionHeartbeat.run, one round at a time, thread never started: `_shutdown_event` is a
-scripted object; waits return immediately; the replies (supported / error / silence) are fed between the creation of
-the HeartbeatFutures and their wait()."""
+"""The body of the REAL ConnectionHeartbeat.run, executed for a scripted number of rounds inside ONE run() call (so that
+whatever run() keeps between rounds is kept), thread never started.  `_shutdown_event` is a scripted object; time is
+VIRTUAL: cassandra.connection.time is replaced by a clock that only HeartbeatFuture.wait advances; each connection's
+reply (supported / error / silence) arrives at a scripted instant after the wait phase began."""
 from cassandra.connection import ConnectionHeartbeat, HeartbeatFuture
 import cassandra.connection as cconn
 
+T_DEFAULT = 100      # idle_heartbeat_timeout in virtual ticks
+
 
 class ScriptedEvent(object):
-    def __init__(self, hook):
-        self.hook = hook
+    def __init__(self, nrounds, on_round_end):
+        self.nrounds, self.on_round_end = nrounds, on_round_end
         self.waits = 0
         self.done = False
 
     def wait(self, t=None):
         self.waits += 1
         if self.waits >= 2:
-            self.done = True       # the wait at the end of the round: stop the loop
+            self.on_round_end(self.waits - 2)
+        if self.waits >= 1 + self.nrounds:
+            self.done = True
 
     def is_set(self):
-        if not self.done:
-            self.hook()
         return self.done
 
 
-def run_round(harnesses, replies, busy=()):
-    """harnesses: list of Harness (each owns one real connection + its real HostConnection owner).
-    replies[k] in {'supported', 'error', 'silent'} for harness k; busy: indices that received traffic (msg_received)."""
+class Clock(object):
+    def __init__(self):
+        self.now = 1000.0
+
+    def time(self):
+        return self.now
+
+    def sleep(self, t):
+        self.now += t
+
+
+def run_rounds(harnesses, rounds, T=T_DEFAULT):
+    """harnesses: list of Harness (one real connection + its real HostConnection owner each).
+    rounds: list of dicts {'replies': [...], 'delays': [...] (virtual ticks after the wait phase began, None = at once),
+                           'raise_in_owner': [indices whose owner's failure handling raises once]}.
+    Returns per round, per harness: dict(sent, waited_ok)"""
     hb = ConnectionHeartbeat.__new__(ConnectionHeartbeat)
-    hb._interval, hb._timeout = 30, 0
+    hb._interval, hb._timeout = 30, T
     holders = [h.pool for h in harnesses]
     hb._get_connection_holders = lambda: holders
-    state = {'fed': False}
-    orig_hbf_init = HeartbeatFuture.__init__
+    clock = Clock()
+    st = {'round': 0, 'phase_start': None, 'fed': set()}
+    orig_hbf_init, orig_wait = HeartbeatFuture.__init__, HeartbeatFuture.wait
+    real_time = cconn.time
+    report = [[{'sent': False, 'waited_ok': None} for _ in harnesses] for _ in rounds]
 
-    def feed():
-        # called from _raise_if_stopped: once every HeartbeatFuture of the round exists, deliver the scripted replies
-        if state['fed'] or not state.get('phase2'):
-            return
-        state['fed'] = True
-        for k, h in enumerate(harnesses):
-            tok = h.hb_tok
-            ent = [w for w in h.wire if w[1] == tok]
-            if not ent:
-                continue
-            if replies[k] == 'supported':
-                h.a_respond({'a': 'respond', 'i': ent[0][0], 'd': 'DSupported'})
-            elif replies[k] == 'error':
-                h.a_respond({'a': 'respond', 'i': ent[0][0], 'd': 'DErr'})
+    def cur():
+        return rounds[min(st['round'], len(rounds) - 1)]
+
+    def arrival(k):
+        r = cur()
+        if r['replies'][k] == 'silent':
+            return None
+        d = (r.get('delays') or [None] * len(harnesses))[k]
+        return st['phase_start'] + (d or 0)
+
+    def advance_to(t):
+        clock.now = max(clock.now, t)
+        due = sorted((arrival(k), k) for k in range(len(harnesses))
+                     if (st['round'], k) not in st['fed'] and arrival(k) is not None and arrival(k) <= clock.now)
+        for _, k in due:
+            st['fed'].add((st['round'], k))
+            h = harnesses[k]
+            ent = [w for w in h.wire if w[1] == h.hb_tok]
+            if ent and report[st['round']][k]['sent']:
+                h.a_respond({'a': 'respond', 'i': ent[0][0], 'd': 'DSupported' if cur()['replies'][k] == 'supported' else 'DErr'})
 
     def hbf_init(self, connection, owner):
         h = connection.h
@@ -67,41 +92,74 @@ def run_round(harnesses, replies, busy=()):
                 h.event([11])
             h.checkpoint()
         h.hb_future = self
-
-    class WaitHook(object):
-        pass
-
-    orig_wait = HeartbeatFuture.wait
+        self.vf_round = st['round']
+        report[st['round']][harnesses.index(h)]['sent'] = any(w[1] == h.hb_tok for w in h.wire)
 
     def hbf_wait(self, timeout):
-        state['phase2'] = True
-        feed()
         h = self.connection.h
-        r = orig_wait(self, 0)
+        k = harnesses.index(h)
+        if st['phase_start'] is None:
+            st['phase_start'] = clock.now          # run() has just taken its start_time for the wait phase
+        advance_to(clock.now)
+        stale = getattr(self, 'vf_round', st['round']) != st['round']
+        a = None if stale else arrival(k)
+        if not self._event.is_set():
+            if a is not None and timeout is not None and timeout > 0 and a <= clock.now + timeout:
+                advance_to(a)
+            else:
+                advance_to(clock.now + max(timeout or 0, 0))
+        try:
+            r = orig_wait(self, 0)
+        except Exception:
+            report[st['round']][k]['waited_ok'] = False
+            raise
+        report[st['round']][k]['waited_ok'] = True
         h.hb_waited_ok = True
+        if stale:
+            h.hb_stale_waits += 1
         if h.hb_race is not None:
             # the next access is run()'s `in_flight -= 1`: let a borrower in between its read and its write if no lock is held
             h.inflight_hook = {'nested': [{'a': 'borrow', 'r': h.hb_race}]}
         return r
 
-    ev = ScriptedEvent(feed)
+    def on_round_end(k):
+        for h in harnesses:
+            h.checkpoint()
+            h.traffic = False
+        st['round'] = k + 1
+        st['phase_start'] = None
+        arm_round()
+
+    def arm_round():
+        if st['round'] >= len(rounds):
+            return
+        for k in cur().get('raise_in_owner') or []:
+            harnesses[k].session.cluster.raise_once = True
+
+    ev = ScriptedEvent(len(rounds), on_round_end)
     hb._shutdown_event = ev
     HeartbeatFuture.__init__ = hbf_init
     HeartbeatFuture.wait = hbf_wait
+    cconn.time = clock
     for h in harnesses:
         h.in_hb_round = True
         h.in_hb_notify = True
         h.hb_waited_ok = False
-        h.hb_pre = (h.conn.in_flight, sorted(h.conn.request_ids), h.conn.is_defunct or h.conn.is_closed, h.conn.is_idle)
-        h.notified_before = h.session.cluster.failures + len([e for e in h.events if e == [12]])
+    arm_round()
     try:
         ConnectionHeartbeat.run(hb)
     finally:
         HeartbeatFuture.__init__ = orig_hbf_init
         HeartbeatFuture.wait = orig_wait
+        cconn.time = real_time
         for h in harnesses:
             h.in_hb_round = False
             h.inflight_hook = None
             h.traffic = False
             h.in_hb_notify = False
             h.checkpoint()
+    return report
+
+
+def run_round(harnesses, replies, busy=()):
+    return run_rounds(harnesses, [{'replies': list(replies)}])[0]
